@@ -19,6 +19,7 @@ import (
 
 	"github.com/quic-go/quic-go"
 
+	"tunnox-core/internal/client/transport"
 	"tunnox-core/internal/protocol/adapter"
 	"tunnox-core/verif/vkit"
 )
@@ -67,10 +68,12 @@ func rtServer(proto string) (acceptor, string, error) {
 			a = adapter.NewTcpAdapter(context.Background(), nil)
 		case "quic":
 			a = adapter.NewQuicAdapter(context.Background(), nil)
+		case "kcp":
+			a = adapter.NewKcpAdapter(context.Background(), nil)
 		default:
 			return nil, "", fmt.Errorf("unknown transport %q", proto)
 		}
-		addr := fmt.Sprintf("127.0.0.1:%d", rtFreePort(proto == "quic"))
+		addr := fmt.Sprintf("127.0.0.1:%d", rtFreePort(proto == "quic" || proto == "kcp"))
 		if err := a.Listen(addr); err != nil {
 			lastErr = err
 			continue
@@ -118,6 +121,14 @@ func dialReal(proto string, far *vkit.BufConn) (*realLink, net.Conn, error) {
 		cliW, cliR = tc, tc
 		finish = func() { tc.Close() } // graceful close: FIN behind the data
 		abort = func() { tc.Close() }
+	case "kcp":
+		c, err := transport.DialKCP(context.Background(), addr) // the client's own KCP transport
+		if err != nil {
+			return nil, nil, err
+		}
+		cliW, cliR = c, c
+		finish = func() { c.Close() }
+		abort = func() { c.Close() }
 	case "quic":
 		ctx, cancel := context.WithTimeout(context.Background(), 5*time.Second)
 		defer cancel()
